@@ -67,7 +67,19 @@ func Run(c *vf.Check) {
 		for n := 2; n <= maxN; n++ {
 			for t := 2; t <= n; t++ {
 				t, n := t, n
-				jobs = append(jobs, func() { runTBLS(c, k, t, n) })
+				jobs = append(jobs, func() { runTBLS(c, k, t, n, false) })
+			}
+		}
+		// larger committees (the statement quantifies n up to 8): a reduced menu
+		if c.Thorough() || k.name() == "bn256/sig-on-G1" {
+			for _, n := range []int{6, 8} {
+				for t := 2; t <= n; t++ {
+					if !c.Thorough() && !(t == 2 || t == n/2+1 || t == n) {
+						continue
+					}
+					t, n := t, n
+					jobs = append(jobs, func() { runTBLS(c, k, t, n, true) })
+				}
 			}
 		}
 		bn := 3
@@ -81,6 +93,9 @@ func Run(c *vf.Check) {
 			n := n
 			jobs = append(jobs, func() { runBDN(c, k, n) })
 		}
+		if c.Thorough() || k.name() == "bn256/sig-on-G1" {
+			jobs = append(jobs, func() { runBDN(c, k, 9) }, func() { runBDN(c, k, 10) })
+		}
 	}
 	for n := 1; n <= 4; n++ {
 		n := n
@@ -89,8 +104,8 @@ func Run(c *vf.Check) {
 	jobs = append(jobs, func() { runCoSiMaskSeq(c) })
 	vf.Parallel(len(jobs), func(i int) { jobs[i]() })
 	c.Finish("engine E (+S for mask objects): BLS on the 8 supported (suite, signature group) combinations: keys {1,r1,r2} x messages {empty, 1 byte, 300 bytes}: verifies; other message/key, sigma+B, -sigma, 2*sigma, identity, one bit per byte flipped -> rejected. "+
-		"Threshold BLS: all (t,n), 2<=t<=n<=3 (4 for bn256-G1 and gnark-G2; thorough 4-5): every subset of the valid partials with >= t-1 members in all orders (n<=3) or sorted/reversed, with none or one injected item from {duplicate of the first/last, bit-flipped partial, valid signature under another signer's index, partial on another message, 1-byte garbage, empty, index >= n} at every position: Recover returns exactly bls.Sign(secret,msg) and VerifyRecovered accepts iff >= t distinct valid partials are present, else an error. "+
-		"BDN: n <= 3 (4 for bn256) signers, all non-empty masks, each built through {NewMask(nil)+SetBit, NewMask(own key k)+SetBit for every k in the mask, SetMask(bytes), Merge of two halves, Clone then edited}: aggregate key bytes equal across routes; aggregate signature verifies under it, fails under every other mask's key and another message. "+
+		"Threshold BLS: all (t,n), 2<=t<=n<=3 (4 for bn256-G1 and gnark-G2; thorough 4-5; and n in {6,8} with t in {2,n/2+1,n} on bn256-G1 - thorough: every t, every combination - on a reduced menu: every subset of size t, the full list, the subsets of size t-1 touching either end, sorted and reversed, {duplicate, bit flip, wrong index} at the front, the middle and the end): every subset of the valid partials with >= t-1 members in all orders (n<=3) or sorted/reversed, with none or one injected item from {duplicate of the first/last, bit-flipped partial, valid signature under another signer's index, partial on another message, 1-byte garbage, empty, index >= n} at every position: Recover returns exactly bls.Sign(secret,msg) and VerifyRecovered accepts iff >= t distinct valid partials are present, else an error. "+
+		"BDN: n <= 3 (4 for bn256) signers, all non-empty masks (and 9 and 10 signers - two mask bytes - on bn256-G1, thorough on every combination, with a menu of 15 masks around the byte boundary), each built through {NewMask(nil)+SetBit, NewMask(own key k)+SetBit for every k in the mask, SetMask(bytes), Merge of two halves, Clone then edited}: aggregate key bytes equal across routes; aggregate signature verifies under it, fails under every other mask's key and another message. "+
 		"CoSi (Ed25519): n <= 4, all masks x policies {Complete, Threshold k}: verifies iff policy met; every bit of V, r and every meaningful mask bit flipped -> error; all SetBit/SetMask sequences of depth <= 3 keep AggregatePublic = sum of enabled keys. "+
 		"non-trivial = lists with an injected item or a non-sorted order, masks with >= 2 signers; distinct by (scheme, combination, t, n, list/mask/route)",
 		[]string{"signing keys and polynomials come from seeded streams", "chance acceptance of a mutated signature is ignored"}, nil)
@@ -264,7 +279,7 @@ func permsOf(a []int) [][]int {
 	return out
 }
 
-func runTBLS(c *vf.Check, k combo, t, n int) {
+func runTBLS(c *vf.Check, k combo, t, n int, large bool) {
 	pk := "C09/tbls/" + k.name()
 	ts := k.tbls()
 	msg := []byte("c09 threshold message")
@@ -343,6 +358,9 @@ func runTBLS(c *vf.Check, k combo, t, n int) {
 		if len(sub) < t-1 {
 			continue
 		}
+		if large && !(len(sub) == t || len(sub) == n || (len(sub) == t-1 && (sub[0] == 0 || sub[len(sub)-1] == n-1))) {
+			continue // large n: every subset of size t, the full list, and the subsets of size t-1 touching either end
+		}
 		var ords [][]int
 		if n <= 3 {
 			ords = permsOf(sub)
@@ -353,14 +371,25 @@ func runTBLS(c *vf.Check, k combo, t, n int) {
 			}
 			ords = [][]int{sub, rev}
 		}
-		for _, ord := range ords {
+		for oi, ord := range ords {
+			_ = oi
 			injs := append([]inj{{"none", nil}}, mkInj(ord[0], ord[len(ord)-1])...)
+			if large {
+				if oi == 0 {
+					injs = []inj{injs[0], injs[1], injs[3], injs[4]} // none, duplicate of the first, bit flip, wrong index
+				} else {
+					injs = injs[:1]
+				}
+			}
 			for _, in := range injs {
 				positions := len(ord) + 1
 				if in.name == "none" {
 					positions = 1
 				}
 				for pos := 0; pos < positions; pos++ {
+					if large && !(pos == 0 || pos == len(ord)/2 || pos == len(ord)) {
+						continue
+					}
 					var list [][]byte
 					for i, s := range ord {
 						if in.name != "none" && i == pos {
